@@ -79,7 +79,10 @@ def run(drv, script_text, workdir, tmpdir_mode=False, inject=None, env=None, nth
         logpaths.append(p)
     base = 100
     slog = os.path.join(workdir, "strace.log")
-    cmd = ["strace", "-f", "-o", slog, "-e", "trace=" + ",".join(SYSCALLS), "-e", "signal=none"]
+    # --seccomp-bpf makes strace much cheaper, but signal injection at syscall
+    # entry does not work with it (observed); error injection does.
+    fast = ["--seccomp-bpf"] if (inject is None or ":error=" in inject) else []
+    cmd = ["strace", "-f"] + fast + ["-o", slog, "-e", "trace=" + ",".join(SYSCALLS), "-e", "signal=none"]
     if inject:
         cmd += ["-e", "inject=" + inject]
     cmd += [drv, script_text, "fd:%d" % base]
